@@ -42,6 +42,23 @@ Theorem C14_refs_invariant : forall lk lk' f refs refs',
   normalized_refs lk' refs' = normalized_refs lk refs.
 Proof. exact normalized_refs_invariant. Qed.
 
+(* ---- per namespace: the same holds for the tables of one namespace (rows whose ns is k; references touching those rows), under an injective renumbering ---- *)
+Theorem C14_nodes_ns_invariant : forall lk lk' f k nodes nodes',
+  (forall i, lookup lk' (f i) = lookup lk i) -> Permutation nodes' (map (rename_pair f) nodes) ->
+  normalized_nodes_ns lk' k nodes' = normalized_nodes_ns lk k nodes.
+Proof. exact normalized_nodes_ns_invariant. Qed.
+Theorem C14_refs_ns_invariant : forall lk lk' f k nodes nodes' refs refs',
+  (forall i, lookup lk' (f i) = lookup lk i) -> (forall i j, f i = f j -> i = j) ->
+  Permutation nodes' (map (rename_pair f) nodes) -> Permutation refs' (map (rename_ref f) refs) ->
+  normalized_refs_ns lk' k nodes' refs' = normalized_refs_ns lk k nodes refs.
+Proof. exact normalized_refs_ns_invariant. Qed.
+(* what the per-namespace tables are made of *)
+Theorem C14_nodes_of_namespace : forall k nodes n, In n (nodes_of_ns k nodes) <-> In (n, k) nodes.
+Proof. exact nodes_of_ns_spec. Qed.
+Theorem C14_refs_of_namespace : forall k nodes refs r, In r (refs_of_ns k nodes refs) <->
+  In r refs /\ (exists n, In (n, k) nodes /\ (g_id n = fst (fst r) \/ g_id n = snd (fst r))).
+Proof. exact refs_of_ns_spec. Qed.
+
 Print Assumptions C14_trichotomy.
 Print Assumptions C14_lt_transitive.
 Print Assumptions C14_le_transitive.
@@ -55,3 +72,7 @@ Print Assumptions C14_canonical.
 Print Assumptions C14_sorted_is_permutation.
 Print Assumptions C14_nodes_invariant.
 Print Assumptions C14_refs_invariant.
+Print Assumptions C14_nodes_ns_invariant.
+Print Assumptions C14_refs_ns_invariant.
+Print Assumptions C14_nodes_of_namespace.
+Print Assumptions C14_refs_of_namespace.
